@@ -114,7 +114,7 @@ private:
 	friend class OSToken;
 
 	// Refresh the object if necessary
-	void refresh(bool isFirstTime = false);
+	void refresh(bool isFirstTime = false, bool isAborting = false);
 
 	// Write the object to background storage
 	void store(bool isCommit = false);
